@@ -382,7 +382,11 @@ XMLUTF8Transcoder::transcodeFrom(const  XMLByte* const          srcData
             //  the real problem area.
             //
             if ((outPtr - toFill) > 32)
+            {
+                // Un-eat the bad sequence so that the next call sees it again
+                srcPtr -= (trailingBytes + 1);
                 break;
+            }
 
             ThrowXMLwithMemMgr(TranscodingException, XMLExcepts::Trans_BadSrcSeq, getMemoryManager());
         }
